@@ -18,6 +18,25 @@ namespace TrustVerif.StCore
 sign applied afterwards): a magnitude above `i64::MAX` cannot be written, typed or not. -/
 def writable (v : Int) : Bool := decide (-i64Max ≤ v) && decide (v ≤ i64Max)
 
+/-- `const_eval.rs: eval_const_int_expr` on an index expression (literals, unary minus, checked
+`+ - * / MOD`); a typed literal contributes only its digits (the sign inside `K#-n` is dropped). -/
+def constIdx : Expr → Option Int
+  | .lit none v => some v
+  | .lit (some _) v => some (Int.ofNat v.natAbs)
+  | .un .neg e => (constIdx e).map (fun v => -v)
+  | .bin op l r =>
+    match constIdx l, constIdx r with
+    | some a, some b =>
+      match op with
+      | .add => some (a + b)
+      | .sub => some (a - b)
+      | .mul => some (a * b)
+      | .div => if b = 0 then none else some (Int.tdiv a b)
+      | .mod => if b = 0 then none else some (Int.tmod a b)
+      | _ => none
+    | _, _ => none
+  | _ => none
+
 /-- `expr.rs: check_expression` restricted to the fragment; `none` = an error diagnostic (or a
 lowering error) somewhere inside. -/
 def inferL (Γ : Ctx) : Expr → Option Ty
@@ -50,6 +69,22 @@ def inferL (Γ : Ctx) : Expr → Option Ty
         | .bool, .bool => some .bool
         | _, _ => none
     | _, _ => none
+  | .idx a i =>
+    -- index of integer type; a constant index is checked against the bounds (E304)
+    match Γ.aggs.lookup a with
+    | some (.arr lo hi t) =>
+      match inferL Γ i with
+      | some (.int _) =>
+        match constIdx i with
+        | some n => if lo ≤ n ∧ n ≤ hi then some t else none
+        | none => some t
+      | _ => none
+    | _ => none
+  | .fld s f =>
+    -- the checker finds the field case-insensitively ("no field on struct" otherwise)
+    match Γ.aggs.lookup s with
+    | some (.str _ fields) => (fields.find? (fun q => q.1.toUpper = f.toUpper)).map (·.2)
+    | _ => none
 
 /-- `literals.rs: is_untyped_int_literal_expr` (parentheses are transparent in the AST). -/
 def isLitExpr : Expr → Bool
@@ -141,15 +176,23 @@ def checkStmt (ce : Bool) (Γ : Ctx) (restricted : List String) (inLoop : Bool) 
     match Γ.lookup x with
     | none => false
     | some t => !restricted.contains x && assignOk Γ t e
+  | .assignIdx a i e =>
+    match inferL Γ (.idx a i) with
+    | some t => assignOk Γ t e
+    | none => false
+  | .assignFld s f e =>
+    match inferL Γ (.fld s f) with
+    | some t => assignOk Γ t e
+    | none => false
   | .ite c t elifs el =>
     inferL Γ c = some .bool && checkBlock ce Γ restricted inLoop t
       && checkElifs ce Γ restricted inLoop elifs && checkBlock ce Γ restricted inLoop el
   | .case sel brs el =>
     match inferL Γ sel with
     | some (.int k) =>
-      -- `check_case_stmt` visits only the `CaseBranch` children: the statements of the ELSE
-      -- branch are **never type-checked** by the real checker (`ce = false`); `ce = true` is the
-      -- repaired checker used to attribute failures to this hole
+      -- `check_case_stmt` checks the statements of the ELSE branch like any other block since
+      -- 22a8b8f (`ce = true`, the real checker); `ce = false` is the checker before that fix,
+      -- kept so that the regression witness can be stated
       (checkBranches ce Γ restricted inLoop k {} brs).isSome && (!ce || checkBlock ce Γ restricted inLoop el)
     | _ => false     -- BOOL selector: labels cannot be lowered ("expected integer constant")
   | .for x s e step body =>
@@ -211,10 +254,14 @@ def Expr.lowerable : Expr → Bool
   | .var _ => true
   | .un _ e => e.lowerable
   | .bin _ l r => l.lowerable && r.lowerable
+  | .idx _ i => i.lowerable
+  | .fld _ _ => true
 
 mutual
 def Stmt.lowerable : Stmt → Bool
   | .assign _ e => e.lowerable
+  | .assignIdx _ i e => i.lowerable && e.lowerable
+  | .assignFld _ _ e => e.lowerable
   | .ite c t elifs el => c.lowerable && t.lowerable && elifs.lowerable && el.lowerable
   | .case sel brs el => sel.lowerable && brs.lowerable && el.lowerable
   | .for _ s e step body =>
@@ -234,13 +281,16 @@ def Branches.lowerable : Branches → Bool
 end
 
 def Program.acceptedWith (ce : Bool) (p : Program) : Bool :=
-  distinctNames (p.decls.map (·.name)) && p.decls.all VarDecl.ok
+  distinctNames (p.decls.map (·.name) ++ p.aggs.map (·.1)) && p.decls.all VarDecl.ok
+    && p.aggs.all (fun (_, d) => match d with
+        | .arr lo hi _ => decide (lo ≤ hi)
+        | .str _ fs => distinctNames (fs.map (·.1.toUpper)))
     && checkBlock ce p.ctx [] false p.body && p.body.lowerable
 
 /-- The model's verdict on a program: the real compiler (`TestHarness::from_source`) accepts it. -/
-def Program.accepted (p : Program) : Bool := p.acceptedWith false
+def Program.accepted (p : Program) : Bool := p.acceptedWith true
 
-/-- Verdict of the checker with the CASE-ELSE hole closed. -/
-def Program.acceptedFixed (p : Program) : Bool := p.acceptedWith true
+/-- Verdict of the checker before 22a8b8f (ELSE branch of CASE unchecked). -/
+def Program.acceptedBefore22a8b8f (p : Program) : Bool := p.acceptedWith false
 
 end TrustVerif.StCore
